@@ -133,8 +133,8 @@ def one_session(args):
         if not other:
             detail['unexpected_tests'] = {t_: v_ for t_, v_ in res.items() if t_ not in mapped}
         e = {'tid': tid, 'ev': 'RunTest', 'raised': 'none', 'verdict': v, 'fs': fsx, 'othertests': other}
-        if 'missing' in v.values() or any(x == 'error' for x in v.values()):
-            detail.setdefault('script_output', outp[-1500:])
+        if any(x != 'pass' for x in v.values()) and label != 'perturbed':
+            detail.setdefault('script_output', outp[-2500:])
         events.append(e)
         return v
     runtest('fresh')
@@ -236,6 +236,8 @@ def script_passes_signature(e, det):
         return ''
     sig['failing_mention_tmpdir'] = bool(failing) and all('{TMPDIR}' in text_of_target(t) for t in failing)
     sig['verdicts'] = ','.join(sorted(set(e['verdict'][t] for t in failing)))
+    # control characters make chardet call a text binary, and gentest then derives no exclusions for it
+    sig['control_chars'] = bool(failing) and all(re.search('[\x00-\x08\x0b\x0c\x0e-\x1f]', text_of_target(t)) for t in failing)
     if failing == ['o2']:
         name = [n for n, sp in det['behaviour']['files'].items() if sp and sp['kind'] == 'binary']
         sig['binary_ext'] = os.path.splitext(name[0])[1] if name else ''
@@ -303,26 +305,7 @@ def run_sessions(chk, seed, nsessions, nperturb, clauses, kind):
                         nviol += 1
                     continue
                 if clause == 'ScriptPasses' and e['ev'] == 'RunTest':
-                    failing = sorted(t for t, v in e['verdict'].items() if v != 'pass')
-                    sig['failing'] = ','.join(failing)
-                    sig['iterations'] = det['flags'][det['flags'].index('-n') + 1]
-
-                    def text_of_target(t):
-                        b = det['behaviour']
-                        if t == 'STDOUT':
-                            return b['stdout']
-                        if t == 'STDERR':
-                            return b['stderr']
-                        for n_, sp in b['files'].items():
-                            if sp and sp['kind'] == 'text' and gl.test_name_for(n_) and n_ == det.get('names', {}).get(t):
-                                return sp['text']
-                        return ''
-                    sig['failing_mention_tmpdir'] = bool(failing) and all('{TMPDIR}' in text_of_target(t) for t in failing)
-                    sig['verdicts'] = ','.join(sorted(set(e['verdict'][t] for t in failing)))
-                    if failing == ['o2']:
-                        name = [n for n, sp in det['behaviour']['files'].items() if sp and sp['kind'] == 'binary']
-                        sig['binary_ext'] = os.path.splitext(name[0])[1] if name else ''
-                        sig['iterations'] = det['flags'][det['flags'].index('-n') + 1]
+                    sig = script_passes_signature(e, det)
                 if clause == 'Teeth' and prev:
                     sig['target'] = prev[-1]['target']
                     sig['what'] = prev[-1]['what'].split(' ')[0]
